@@ -317,9 +317,22 @@ class Ctx:
         """thorough tier: re-check the compiled property files (and everything they depend on) with the independent
         checker coqchk and record its context summary (axioms, type-in-type, unsafe fixpoints, assumed positivity)."""
         res = []
+        budget = int(os.environ.get("VERIF_COQCHK_BUDGET", "2400"))       # seconds for all property files of this check
+        t_start = time.time()
         for rel in self.props_built:
             mod = LOGICAL + "." + rel[:-2].replace("/", ".")
-            rc, out = sh("timeout 3000 coqchk -silent -o -Q . %s %s 2>&1" % (LOGICAL, mod), cwd=COQ, timeout=3100)
+            left = min(int(budget - (time.time() - t_start)), max(300, budget // max(1, len(self.props_built))))
+            if left < 60:
+                res.append({"module": mod, "rc": None, "axioms": [], "flags": [], "not_run": "coqchk budget of %d s used up" % budget})
+                self.notes.append("coqchk not run on %s: budget used up (the coqc kernel check of this file stands)" % mod)
+                continue
+            rc, out = sh("timeout %d coqchk -silent -o -Q . %s %s 2>&1" % (left, LOGICAL, mod), cwd=COQ, timeout=left + 60)
+            if rc in (124, 137):
+                # not a verdict: the independent re-check did not finish (files depending on Coquelicot/Interval take > 50 min);
+                # the coqc kernel check of the same file has succeeded in this run
+                res.append({"module": mod, "rc": 124, "axioms": [], "flags": [], "not_run": "coqchk did not finish within %d s" % left})
+                self.notes.append("coqchk did not finish on %s within %d s (the coqc kernel check of this file stands)" % (mod, left))
+                continue
             summ = out[out.find("CONTEXT SUMMARY"):] if "CONTEXT SUMMARY" in out else out[-600:]
             bad = []
             for key in ("type-in-type", "unsafe (co)fixpoints", "positivity is assumed"):
